@@ -250,3 +250,10 @@ pub fn c07_native<G: AffineRepr + 'static>(case: &crate::scen_c07::BatchCase, se
     }
     out
 }
+
+pub fn c06_native<G: AffineRepr + 'static>(shape: &crate::r1cs::Shape, seed: u64) -> Checks {
+    merlin::vlog::reset();
+    let (arb, arb_v) = crate::scen_c06::arbitrary_proof::<G>(shape, seed);
+    let (checks, _raw, _) = crate::scen_c06::observe::<G>(shape, Box::new(PlainVals::<G::ScalarField>::new(HashMap::new(), seed)), seed, &arb, &arb_v);
+    checks.into_iter().map(|(n, ok, d)| (format!("{} {}", n, d), ok)).collect()
+}
